@@ -676,7 +676,39 @@ func c14LedgerCheck(w *c14World, rep *phaseReport, sum ledgerSummary, fill int, 
 		w.led.violate("C14:ledger-arithmetic", fmt.Sprintf("gets-puts=%d but %d packets are held", sum.Gets-sum.Puts, len(sum.Held)), nil)
 	}
 	if rep.PoolFill+len(parked)+stranded != rep.PoolCap && len(leaked) == 0 {
-		w.led.violate(key+":pool-fill", fmt.Sprintf("%s: pool fill %d + parked %d != capacity %d", what, rep.PoolFill, len(parked), rep.PoolCap), nil)
+		// The fill level is read from the pool's channel while the ledger is
+		// updated by a hook one statement after the channel operation: a BFD
+		// sender waking up between the two reads shows as a transient
+		// difference of one. A leak is permanent: the difference is reported
+		// only if it persists over further stable cuts.
+		persistent := true
+		for try := 0; try < 4 && persistent; try++ {
+			time.Sleep(3 * time.Millisecond)
+			_, f2 := router.VerifPoolCap(w.star.C)
+			s2 := w.led.summarize()
+			if s2.Gets == sum.Gets && s2.Puts == sum.Puts && f2+len(parked)+stranded == rep.PoolCap {
+				persistent = false
+				rep.PoolFill = f2
+			}
+			if s2.Gets != sum.Gets || s2.Puts != sum.Puts {
+				// the data plane moved on (BFD tick): take a fresh stable cut
+				want := w.expectedRoles()
+				if afterShutdown {
+					want = roleCount{Processors: w.desc.Processors, SlowPath: w.desc.SlowPath}
+				}
+				if s3, f3, _, _, ok := w.stableCut(want, !afterShutdown, 10*time.Second); ok {
+					if f3+len(s3.Held) == rep.PoolCap {
+						persistent = false
+						rep.PoolFill = f3
+					}
+				}
+			}
+		}
+		if persistent {
+			w.led.violate(key+":pool-fill", fmt.Sprintf("%s: pool fill %d + parked %d != capacity %d", what, rep.PoolFill, len(parked), rep.PoolCap), nil)
+		} else {
+			rep.Note += " transient pool-fill difference (non-atomic read), gone at the next cut"
+		}
 	}
 	if !afterShutdown && len(parked) != rep.ExpectParked {
 		// not a verdict of C14 by itself: reported so that a wrong assumption of
